@@ -794,6 +794,15 @@ macro_rules! ljm {
         ($(($f)(),)+)
     }};
 }
+/// joiners that are generic FUNCTIONS (like `rayon::join`): every call site infers its own type parameters
+pub fn lfj2<RA, RB>(a: impl FnOnce() -> RA, b: impl FnOnce() -> RB) -> (RA, RB) {
+    joiner_ev(2, true);
+    (a(), b())
+}
+pub fn lfj3<RA, RB, RC>(a: impl FnOnce() -> RA, b: impl FnOnce() -> RB, c: impl FnOnce() -> RC) -> (RA, RB, RC) {
+    joiner_ev(3, true);
+    (a(), b(), c())
+}
 /// transposing joiner for `transpose_results(false)`: the tuple of Results becomes the Result of the tuple
 pub trait Transpose {
     type Out;
